@@ -65,6 +65,9 @@ fn decoy() -> Filter {
 pub struct Case {
     pub spec: FSpec,
     pub carrier: Carrier,
+    /// Some((before, after)): the command travels inside a command list, between that many other commands
+    #[serde(default)]
+    pub list: Option<(u8, u8)>,
 }
 
 fn tag_of(t: &TagSpec) -> (Tag, String) {
@@ -257,7 +260,38 @@ pub fn check(case: &Case) -> CaseResult {
         Carrier::CountGroupedFilterTwice => (CountGrouped::new(group).filter(decoy()).filter(filter).command(), 1),
         Carrier::CountThenGroupByThenFilter => (Count::new(decoy()).group_by(group).filter(filter).command(), 1),
     };
-    let bytes = sent_bytes(cmd);
+    let bytes = match case.list {
+        None | Some((0, 0)) => sent_bytes(cmd),
+        Some((before, after)) => {
+            // inside a command list: the filter must arrive as it would alone
+            r.class("inside_command_list");
+            let filler = |i: u8| mpd_protocol::Command::new("filler").argument(format!("n{i}  x"));
+            let mut cmds: Vec<mpd_protocol::Command> = (0..before % 3).map(filler).collect();
+            let idx = cmds.len();
+            cmds.push(cmd);
+            cmds.extend((0..after % 3).map(|i| filler(100 + i)));
+            if cmds.len() == 1 {
+                cmds.push(filler(7));
+            }
+            let mut it = cmds.into_iter();
+            let mut list = mpd_protocol::CommandList::new(it.next().unwrap());
+            for c in it {
+                list.add(c);
+            }
+            let all = crate::cmdlab::sent_list_bytes(list);
+            match mpdtok::split_lines(&all) {
+                Ok(lines) if lines.len() > idx + 1 => {
+                    let mut l = lines[idx + 1].to_vec();
+                    l.push(b'\n');
+                    l
+                }
+                other => {
+                    r.fail(format!("command list with the filter command at position {idx} written as {:?} ({:?})", escape_bytes(&all), other.map(|l| l.len())));
+                    return r;
+                }
+            }
+        }
+    };
     let line = &bytes[..bytes.len() - 1];
 
     let mut vals = Vec::new();
@@ -346,6 +380,7 @@ pub fn filter_value(max: usize) -> impl Strategy<Value = String> {
         1 => Just("\\".to_string()),
         1 => Just("^\\d+$".to_string()),
         1 => Just("it's".to_string()),
+        1 => prop_oneof![Just("a  b"), Just("  "), Just(" lead"), Just("trail  "), Just("tab\t\tstop"), Just("a \t b")].prop_map(str::to_string),
         2 => prop::collection::vec(value_char(), 10..max.max(11)).prop_map(|v| v.into_iter().collect::<String>()),
     ]
 }
@@ -432,7 +467,7 @@ fn exhaustive(tier: Tier) -> Box<dyn Iterator<Item = Case>> {
         ops.into_iter().enumerate().map(move |(i, op)| {
             let leaf = FSpec::New { tag: TagSpec::Named((i * 9000) as u16), op, value: s.clone() };
             let spec = if i % 2 == 0 { leaf } else { FSpec::And(Box::new(FSpec::Negate(Box::new(leaf))), Box::new(FSpec::Exists(TagSpec::Any))) };
-            Case { spec, carrier: Carrier::Find }
+            Case { spec, carrier: Carrier::Find, list: None }
         })
     }))
 }
@@ -450,9 +485,9 @@ pub fn property(_tier: Tier) -> Property {
             }),
             Box::new(RandomPart {
                 name: "random_trees",
-                rule: "proptest: trees of depth <= 4 built only through Filter::new/tag/tag_exists/tag_absent/negate/!/and over the 31 named tags, Tag::any() and valid unknown names, all 5 operators, values up to 300 chars over all special classes plus ( ) ! = AND; carried by Find, Count, CountGrouped::filter, Count::group_by, List::filter (+group_by); tokenised and parsed by the MPD ports, compared with the mirror tree after flattening ANDs; same non-trivial rule; distinct by serialised case",
+                rule: "proptest: trees of depth <= 4 built only through Filter::new/tag/tag_exists/tag_absent/negate/!/and over the 31 named tags, Tag::any() and valid unknown names, all 5 operators, values up to 300 chars over all special classes plus ( ) ! = AND; carried by Find, Count, CountGrouped::filter, Count::group_by, List::filter (+group_by), alone or (1 case in 4) inside a command list between other commands; tokenised and parsed by the MPD ports, compared with the mirror tree after flattening ANDs; same non-trivial rule; distinct by serialised case",
                 cases: (100_000, 20_000_000),
-                strategy: Box::new(|_t| (fspec(), carrier()).prop_map(|(spec, carrier)| Case { spec, carrier }).boxed()),
+                strategy: Box::new(|_t| (fspec(), carrier(), prop_oneof![3 => Just(None), 1 => (0..3u8, 0..3u8).prop_map(Some)]).prop_map(|(spec, carrier, list)| Case { spec, carrier, list }).boxed()),
                 check: Box::new(check),
             }),
             crate::fuzzops::corpus_part("fuzz_corpus", "fz_cmd", "C11", crate::fuzzops::cmd_target),
